@@ -802,7 +802,10 @@ def json_cli_fixed(args) -> List[Tuple[str, Dict[str, Any], str, Any]]:
             # explicit nulls (an empty `quality:` line in YAML): accepted by the API, so the CLI must report OK and exit 0
             "null_quality": {"t2": {"quality": None}}, "null_t1": {"t1": None}, "null_sched": {"scheduler": None},
             "null_perf": {"perf": None}, "null_graph": {"graph": None}, "null_t4_cache": {"t4": {"cache": None}},
-            "null_budgets": {"scheduler": {"budgets": None}}, "null_hybrid": {"t2": {"hybrid": None}}}
+            "null_budgets": {"scheduler": {"budgets": None}}, "null_hybrid": {"t2": {"hybrid": None}},
+            # user strings that contain line-boundary characters other than \n and end up inside a message
+            "ls_key": {"t2": {"k_retrieval": 0, "bad\u2028key": 1}}, "vt_key": {"un\x0bknown": 1, "t1": {"iter_cap\u0085": 3}},
+            "ps_cooldown": {"t4": {"cooldowns": {"Edit\u2029Graph": -1}, "novelty_cap_per_node": -1.0}}}
     d = os.path.join(wd, f"jsoncli_{os.getpid()}")
     os.makedirs(d, exist_ok=True)
     env = dict(os.environ)
@@ -815,11 +818,28 @@ def json_cli_fixed(args) -> List[Tuple[str, Dict[str, Any], str, Any]]:
             validate_config_verbose(copy.deepcopy(doc))
             verdict, msgs = "accept", []
         except Exception as e:  # noqa: BLE001
-            verdict, msgs = "reject", [m for m in str(e).splitlines() if m.strip()]
+            verdict, msgs = "reject", [m for m in str(e).strip().split("\n")]
+        # the list-returning API variants report exactly the lines of the typed error, one message per problem
+        from configs.validate import validate_config_api, validate_config as _vc
+        try:
+            api = validate_config_api(copy.deepcopy(doc))
+            compat = _vc(copy.deepcopy(doc), strict=True)
+            api_msgs = [m for m in (api[1] or [])]
+            compat_msgs = [m for m in (compat[0] or [])]
+            for nm_, got_ in (("validate_config_api", api_msgs), ("validate_config(strict=True)", compat_msgs)):
+                if (verdict == "accept") != (not got_) or (verdict == "reject" and "\n".join(got_) != "\n".join(msgs)):
+                    fails.append(("SameVerdictAllApis", {"cause": "api-messages-differ", "variant": nm_},
+                                  f"[{name}] {nm_} on {doc!r}: messages {got_!r}, the typed error carries {msgs!r}", {"v": {}, "doc": doc, "variant": nm_}))
+                elif verdict == "reject" and len(got_) != len(msgs):
+                    fails.append(("SameVerdictAllApis", {"cause": "api-message-count", "variant": nm_},
+                                  f"[{name}] {nm_} on {doc!r}: {len(got_)} messages for {len(msgs)} problems: {got_!r}", {"v": {}, "doc": doc, "variant": nm_}))
+        except Exception as e:  # noqa: BLE001
+            fails.append(("TotalTyped", {"cause": "api-variant-raised", "variant": "list-returning"}, f"[{name}] list-returning API raised {type(e).__name__}: {e} on {doc!r}",
+                          {"v": {}, "doc": doc}))
         path = os.path.join(d, f"{name}.yaml")
         with open(path, "w") as f:
             import yaml
-            yaml.safe_dump(doc, f)
+            yaml.safe_dump(doc, f)       # (escaped output: the CLI must read exactly the document the API got)
         for variant, cmd in (("python -m clematis validate --json FILE", [sys.executable, "-m", "clematis", "validate", "--json", path]),
                              ("python -m clematis.scripts.validate --json FILE", [sys.executable, "-m", "clematis.scripts.validate", "--json", path]),
                              ("python -m clematis validate FILE", [sys.executable, "-m", "clematis", "validate", path]),
